@@ -1110,13 +1110,30 @@ class Prelude:
             tag = self.tu.records[r].get('tagUsed', 'struct') if r in self.tu.records else 'struct'
             tag = 'union' if tag == 'union' else 'struct'
             out.append('typedef %s %s %s;' % (tag, r, r))
+        # C style `typedef enum { ... } Name;`: the typedef gives the anonymous enum its name
+        anon_named = {}
+        def enum_ids(n):
+            r = []
+            if n.get('kind') == 'EnumType' and n.get('decl', {}).get('id'): r.append(n['decl']['id'])
+            if n.get('ownedTagDecl', {}).get('id'): r.append(n['ownedTagDecl']['id'])
+            for c in n.get('inner', []): r += enum_ids(c)
+            return r
+        anon = set(e['id'] for e in self.tu.enums if not e.get('name'))
+        for t in self.tu.typedefs:
+            for i in enum_ids(t):
+                if i in anon and i not in anon_named: anon_named[i] = t['name']
+        skip_typedefs = set(anon_named.values())
         for e in self.tu.enums:
-            if not e.get('name'):
+            if not e.get('name') and e['id'] in anon_named:
+                nm = anon_named[e['id']]
+                out.append('typedef enum %s { %s } %s;' % (nm, ', '.join(self._enum_items(e)), nm))
+            elif not e.get('name'):
                 items = self._enum_items(e)
                 out.append('enum { %s };' % ', '.join(items))
             else:
                 out.append('typedef enum %s { %s } %s;' % (self._enum_cname(e), ', '.join(self._enum_items(e)), self._enum_cname(e)))
         for t in self.tu.typedefs:
+            if t['name'] in skip_typedefs: continue
             try:
                 out.append('typedef ' + self.decl(t['type'], t['name']) + ';')
             except Unsupported as ex:
